@@ -19,19 +19,21 @@ TECH = "TLA+ spec tla/ClientLib.tla checked by TLC + conformance (schedules from
 FAMILIES = {
     "C17": dict(cfgs=[("MC_ClientLib_C17.cfg", 8, 9)], devs=["NoDupPublish", "PubrelDropped", "NilOnTerminate"],
                 devsigs=["C17/retransmit-no-dup", "C17/pubrel-unanswered", "C17/publish-result-vs-ack"],
-                devmax=7, quick_sample=900, sim=(400, 30)),
-    "C27": dict(cfgs=[("MC_ClientLib_C27.cfg", 7, 8), ("MC_ClientLib_C27u.cfg", 9, 10, "all")], devs=[], quick_sample=250, sim=(400, 30),
-                repeat=1, vectors=True),
+                devmax=7, quick_sample=900, sim=(60, 30)),
+    "C27": dict(cfgs=[("MC_ClientLib_C27.cfg", 7, 8), ("MC_ClientLib_C27u.cfg", 9, 10, "all")], devs=[], quick_sample=250, sim=(60, 30),
+                repeat=1, repeat_thorough=3, vectors=True),
     "C28": dict(cfgs=[("MC_ClientLib_C28.cfg", 5, 6), ("MC_ClientLib_C28ka.cfg", 5, 6)], devs=["KaSync", "NilOnTerminate"],
                 devsigs=["C28/goroutines-after-end"],
-                devcfg="MC_ClientLib_C28ka.cfg", quick_sample=900, sim=(400, 25)),
+                devcfg="MC_ClientLib_C28ka.cfg", quick_sample=900, sim=(60, 25)),
     "C33": dict(cfgs=[("MC_ClientLib_C33.cfg", 7, 9), ("MC_ClientLib_C33b.cfg", 7, 8), ("MC_ClientLib_C33c.cfg", 7, 8)], devs=["KaSync"],
                 devsigs=["C33/keepalive-ping-while-not-active"],
-                devcfg="MC_ClientLib_C33.cfg", quick_sample=900, sim=(400, 30)),
-    "C06": dict(cfgs=[("MC_ClientLib_C06.cfg", 8, 9)], devs=["SharedStore"], devsigs=["C06/pubrec-missing"], devmax=6, quick_sample=500, sim=(200, 25)),
+                devcfg="MC_ClientLib_C33.cfg", quick_sample=900, sim=(60, 30)),
+    "C16": dict(cfgs=[("MC_ClientLib_C16.cfg", 8, 9)], devs=["RegisterReject"], devsigs=["C16/register-retransmit-rejected"], devmax=6,
+                quick_sample=600, sim=(40, 25)),
+    "C06": dict(cfgs=[("MC_ClientLib_C06.cfg", 8, 9)], devs=["SharedStore"], devsigs=["C06/pubrec-missing"], devmax=6, quick_sample=500, sim=(40, 25)),
 }
 # client halves served from the runs of these families
-HALF = {"C06": ["C06"], "C16": ["C17"], "C23": ["C17", "C28", "C33"], "C25": ["C28", "C17"], "C18": ["C33"]}
+HALF = {"C06": ["C06"], "C16": ["C16"], "C23": ["C28", "C17", "C33"], "C25": ["C28", "C17"], "C18": ["C33"]}
 
 
 def read_cfg(name):
@@ -267,10 +269,17 @@ def design_and_generate(fam, tier, notes):
             else:
                 scheds += [(conf, h, "transition") for h in hs]
         elif kind == "sim":
+            # in simulation mode TLC evaluates (and our Next prints) every successor of the states on a walk:
+            # the printed histories are the walks plus all their one-step side branches
             hs = maximal(parse_hists(res))
             if not hs:
                 raise vlib.Inconclusive("TLC simulation produced no walk for %s:\n%s" % (cfgname, res["out"][-1500:]))
-            notes.append("%s: %d random walks (depth <= %d, seed %d)" % (cfgname, len(hs), F["sim"][1], seed))
+            nall = len(hs)
+            hs.sort(key=lambda h: (-len(h), json.dumps(h, sort_keys=True)))
+            deep, side = hs[:2 * F["sim"][0]], hs[2 * F["sim"][0]:]
+            random.Random(seed).shuffle(side)
+            hs = deep + side[:1200]
+            notes.append("%s: %d random walks (depth <= %d, seed %d) with %d side branches, %d executed" % (cfgname, F["sim"][0], F["sim"][1], seed, nall, len(hs)))
             scheds += [(conf, h, "walk") for h in hs]
         else:
             bad = parse_hists(res, "BAD:")
@@ -345,7 +354,8 @@ def run_family(fam, tier, want_props):
     chosen = select(scheds, tier, fam) + extra_schedules(fam)
     scs = []
     meta = {}
-    rep = FAMILIES[fam].get("repeat", 1) if tier == "quick" else FAMILIES[fam].get("repeat", 1) * 3
+    # repetitions: Go map iteration order decides which of several matching handlers / names is used (C27)
+    rep = FAMILIES[fam].get("repeat", 1) if tier == "quick" else FAMILIES[fam].get("repeat_thorough", 1)
     for n, (conf, h, kind) in enumerate(chosen):
         for r in range(rep if kind.startswith("transition") else 1):
             sid = "%s-%05d-%d" % (fam, n, r)
@@ -560,6 +570,7 @@ def run_client_half(prop, tier):
 
 
 def run_replay(prop, path):
+    """Re-execute the schedule of a replay file on the tree under test and judge it again."""
     d = json.load(open(path))
     sc = d.get("scenario")
     if not sc:
@@ -569,10 +580,21 @@ def run_replay(prop, path):
     agg = execute(binary, [sc], "replay")
     sigs = sorted({v["sig"] for v in agg["viol"]})
     for c in agg["crashes"]:
-        sigs.append("C25/client-panic" if c["panic"] else "HARNESS/driver-died")
+        sigs.append("C25/client-panic/%s" % panic_site(c["output"]) if c["panic"] else "HARNESS/driver-died")
     print("replay %s: signatures %s" % (sc["id"], sigs or "none"))
-    mine = [dict(sig=s, what="replay of %s" % path, replay=d) for s in sigs if s.startswith(prop + "/")]
-    rc, _, _ = vlib.verdict(prop, mine)
+    known = [k for k in vlib.load_findings().get("known", []) if k.get("property") == prop]
+    rc = 0
+    for sg in sigs:
+        if not sg.startswith(prop + "/"):
+            continue
+        if any(re.fullmatch(k["sig"], sg) for k in known):
+            print("KNOWN-FINDING: property=%s [sig=%s]" % (prop, sg))
+        else:
+            print("VIOLATION property=%s replay=%s" % (prop, path))
+            print("  sig=%s" % sg)
+            rc = 1
+    if rc == 0 and any(sg.startswith("DESYNC/") or sg.startswith("HARNESS/") for sg in sigs):
+        return 2
     return rc
 
 
